@@ -8,11 +8,15 @@ tie:   (A) compute_args_id: the model's text (Eval vm_compute of `encode gen_enc
        (B) Arguments.from_call vs `bind gen_bind` on every spelling of every call of six signatures, error
            spellings included; oracle: all spellings of one call share one real call_id, different calls differ;
        (C) CallId/TaskId key <-> from_key vs the model, guards and their refutation witnesses on the real classes;
-       (D) operation sequences (serialize / resolve / in-place mutation) on the real Mem and SQLite client data
-           stores vs `run_obs gen_cds` for a grid of thresholds x disable flags x LRU sizes; oracle: a text
-           returned by serialize resolves to the value it was created from; equal content <=> equal reference;
+       (D) operation sequences (serialize / resolve here / resolve on ANOTHER store instance over the same backend /
+           in-place mutation / purge() by this instance / purge() by another instance) on the real Mem and SQLite
+           client data stores vs `run_obs gen_cds` for a grid of thresholds x disable flags x LRU sizes; equal content
+           is serialized again after purges and evictions; oracle: a text returned by serialize (no purge since)
+           resolves - here and on the other instance - to the value it was created from; equal content <=> equal
+           reference; the witnesses of the Coq refutation theorems are run as traces first;
        (E) end to end (client -> state backend -> LazyCall on the worker side -> result/exception back) for the three
-           serializers x both stores x thresholds x disable_cache_args, warm and cold LRU;
+           serializers x both stores x thresholds x disable_cache_args, warm and cold LRU; then app.purge() and the
+           same content again, read by a second app instance on the same database (SQLite) / with a cold LRU (Mem);
        (F) JSON tree layer: json.loads(serialize(v)) and deserialize(serialize(v)) vs preprocess / reconstruct.
 """
 from __future__ import annotations
@@ -40,7 +44,11 @@ MANIFEST = {
             "omitted) binds to the same map; CallId/TaskId key round trip and injectivity under their guards; for EVERY trace of "
             "serialisations, resolutions and in-place mutations and every threshold/disable/LRU configuration the text returned by "
             "serialize resolves to the value it was created from (partial: guard `quiet`; the generated fact decides whether the "
-            "current tree is refuted by LRU aliasing or fully covered); references are a function of content; inline <=> size tests; "
+            "current tree is refuted by LRU aliasing or fully covered) - traces include purges by this and by another store instance "
+            "before the serialisation, the reference resolves on this instance and on any other instance over the same backend as long "
+            "as no purge follows, and the theorem is instantiated with the generated fact that _maybe_store writes the backend row "
+            "unconditionally (a process-local 'already stored' shortcut is refuted in Coq and breaks the proof); "
+            "references are a function of content; inline <=> size tests; "
             "LRU bounded; JSON envelope round trip for all nested values of the domain, with refutation witnesses for every guard. "
             "Tie: fail-closed AST translator of seven source files + differential runs of model (vm_compute) and real code.",
     "note": "Oracles (Section variables / hypotheses): SHA-256 (collision-free on the contents that occur; never equals 'no_args'), "
@@ -48,7 +56,10 @@ MANIFEST = {
             "Trusted: translator harness/translate/roundtrip.py; hand-written models of inspect.Signature.bind, OrderedDict LRU, "
             "str.rsplit/rpartition, json string escaping (tied by the correspondence). Domain guards (reserved keys / reserved "
             "prefix / dots and colons in identifiers) are necessary: refutation witnesses are proved in Coq and re-checked on the "
-            "real classes on every run.",
+            "real classes on every run. The no-purge guard between serialize and resolve is necessary (purge() drops every stored "
+            "value by design; witness proved in Coq and run as a trace). 'Another instance' is a second Pynenc app with the same app_id on "
+            "the same SQLite file; for the process-local Mem store it is the same instance with an emptied LRU, and the purge by another "
+            "instance is not applicable there.",
     "design_ref": "DESIGN.md §6 C15",
 }
 
@@ -391,22 +402,77 @@ def cds_configs(ctx: Ctx):
 
 
 def gen_cds_seq(rng, n_ops):
-    """ops: ('ser', value, disable) | ('res', index of an earlier ser op | 'stale') | ('mut', address index, new value)"""
+    """ops: ('ser', value, disable) | ('res', index of an earlier ser op | 'stale') | ('mut', address index, new value)
+            | ('cold', index | 'stale')   resolve on ANOTHER store instance over the same backend (a worker)
+            | ('purge',)                  purge() of this instance
+            | ('xpurge',)                 purge() of another instance on the same backend (shared backends only)
+    Values repeat on purpose (equal content before and after a purge / an eviction) and resolutions prefer the
+    newest reference: a reference must resolve from the moment serialize returned it."""
     ops = []
     n_ser = 0
     n_obj = 0       # upper bound of live addresses (each ser and each res may create one)
+    used: list = []
+
+    def pick_ref():
+        if rng.random() >= 0.93:
+            return "stale"
+        return n_ser - 1 if rng.random() < 0.45 else rng.randrange(n_ser)
+    follow = None     # after a purge: prefer serializing earlier content again, then reading the new reference back
     for _ in range(n_ops):
         r = rng.random()
-        if n_ser == 0 or r < 0.4:
-            ops.append(("ser", list(rng.choice(VALUES)), rng.random() < 0.15))
+        if follow == "reser" and used and rng.random() < 0.6:
+            r, again = 0.0, True
+        elif follow == "read" and rng.random() < 0.6:
+            r, again = rng.choice((0.4, 0.6)), False
+        else:
+            again = bool(used) and rng.random() < 0.45
+        if n_ser == 0 or r < 0.34:
+            v = list(rng.choice(used)) if again else list(rng.choice(VALUES))
+            used.append(v)
+            ops.append(("ser", v, rng.random() < 0.12))
             n_ser += 1
             n_obj += 1
-        elif r < 0.8:
-            ops.append(("res", rng.randrange(n_ser) if rng.random() < 0.93 else "stale"))
+            follow = "read" if follow == "reser" else None
+        elif r < 0.58:
+            ops.append(("res", n_ser - 1 if follow == "read" else pick_ref()))
             n_obj += 1
-        else:
+            follow = None
+        elif r < 0.76:
+            ops.append(("cold", n_ser - 1 if follow == "read" else pick_ref()))
+            n_obj += 1
+            follow = None
+        elif r < 0.88:
             ops.append(("mut", rng.randrange(n_obj), list(rng.choice(VALUES))))
+        elif r < 0.95:
+            ops.append(("purge",))
+            follow = "reser"
+        else:
+            ops.append(("xpurge",))
+            follow = "reser"
     return ops
+
+
+# the witnesses of the refutation theorems of Props/C15.v and their natural (LRU eviction) variants, as traces
+def cds_witness_runs(L):
+    big, big2 = [1, 2, 3], [1, 2, 4]
+    out = []
+    for kind in ("sqlite", "mem"):
+        # cds_lru_of_objects_refuted: the client mutates the object it serialized / a resolver mutates what it was handed
+        out.append((kind, (False, 0, 0, 4), [("ser", big, False), ("mut", 0, [9]), ("res", 0)]))
+        out.append((kind, (False, 0, 0, 1), [("ser", big, False), ("ser", [4], False), ("res", 0), ("mut", 2, [9]), ("res", 0)]))
+        for mn, cap in ((0, 4), (L, 1), (L, 1024)):
+            conf = (False, mn, 0, cap)
+            # cds_skip_known_own_purge_refuted: the same content again after this instance's purge(), read by a worker
+            out.append((kind, conf, [("ser", big, False), ("cold", 0), ("purge",), ("ser", big, False), ("cold", 1), ("res", 1)]))
+            # ... read by this instance once its LRU has dropped the entry
+            out.append((kind, conf, [("ser", big, False), ("ser", big2, False), ("purge",), ("ser", big, False), ("ser", big2, False),
+                                     ("res", 2), ("res", 3), ("cold", 2)]))
+            # cds_skip_known_refuted: the backend is purged by another instance in between
+            out.append((kind, conf, [("ser", big, False), ("xpurge",), ("ser", big, False), ("cold", 1), ("ser", big2, False),
+                                     ("res", 1), ("res", 2)]))
+            # cds_purge_drops_references (guard, not a defect): a reference created BEFORE the purge is gone afterwards
+            out.append((kind, conf, [("ser", big, False), ("purge",), ("res", 0), ("cold", 0), ("ser", big, False), ("res", 0)]))
+    return out
 
 
 def store_contents(cds) -> dict:
@@ -419,16 +485,36 @@ def store_contents(cds) -> dict:
 
 def run_cds_impl(ctx: Ctx, kind, scratch, conf, ops, prefix, report=True):
     """Runs ops on a real client data store. Returns (observations, model op strings, final store contents, lru contents)."""
+    from collections import OrderedDict
     from pynenc.serializer.json_serializer import JsonSerializer
     dis, mn, mx, cap = conf
-    app = world.make_app(kind, scratch, serializer_cls="JsonSerializer", disable_client_data_store=dis,
-                         min_size_to_cache=mn, max_size_to_cache=mx, local_cache_size=cap)
+    custom = dict(serializer_cls="JsonSerializer", disable_client_data_store=dis,
+                  min_size_to_cache=mn, max_size_to_cache=mx, local_cache_size=cap)
+    app = world.make_app(kind, scratch, **custom)
     cds = app.client_data_store
+    shared = kind == "sqlite"     # the backend is shared between store instances (another app on the same database)
+
+    def peer_store():
+        """the client data store of ANOTHER app instance over the same backend (a worker process / a second client)"""
+        peer = world.make_app(kind, scratch, app_id=app.app_id, **custom)
+        assert peer is not app and peer.client_data_store is not cds
+        return peer.client_data_store
+
+    def cold_resolve(text):
+        if shared:
+            return peer_store().resolve(text)
+        # process-local backend: the other "instance" is this one once its LRU has dropped everything
+        saved, cds._deserialized_cache = cds._deserialized_cache, OrderedDict()
+        try:
+            return cds.resolve(text)
+        finally:
+            cds._deserialized_cache = saved
     tracked: list = []            # address -> live python object
     origin: list = []             # address -> 'client' | 'resolved'
     outs: list = []               # per ser op: (real text, canonical model text)
     created: dict = {}            # real text -> serialized content at creation
     ref_of: dict = {}             # content -> real reference
+    valid: set = set()            # texts returned by serialize since the last purge (these MUST resolve)
     obs, mops = [], []
     for step, op in enumerate(ops):
         if op[0] == "ser":
@@ -449,19 +535,25 @@ def run_cds_impl(ctx: Ctx, kind, scratch, conf, ops, prefix, report=True):
             else:
                 canon = out
             created.setdefault(out, text)
+            valid.add(out)
             outs.append((out, canon))
             obs.append([0] + [ord(c) for c in canon])
             mops.append(f"OSer {cs(text)} {'true' if op[2] else 'false'}")
-        elif op[0] == "res":
+        elif op[0] in ("res", "cold"):
+            cold = op[0] == "cold"
             real, canon = (prefix + ":zzz", prefix + ":zzz") if op[1] == "stale" else outs[op[1]]
-            mops.append(f"ORes {cs(canon)}")
+            mops.append(f"{'OResCold' if cold else 'ORes'} {cs(canon)}")
+            where = "on another store instance over the same backend" if cold and shared else \
+                "on this instance with an empty LRU" if cold else "on this instance"
             try:
-                obj = cds.resolve(real)
+                obj = cold_resolve(real) if cold else cds.resolve(real)
             except KeyError:
                 obs.append([2])
-                if real in created and report:
-                    ctx.violation("cds-resolve:missing", f"{kind}: the reference returned by serialize no longer resolves (KeyError)",
-                                  {"kind": "cds_seq", "backend": kind, "conf": conf, "ops": ops[:step + 1], "why": "KeyError"})
+                if real in valid and report:
+                    ctx.violation("cds-resolve:missing-on-peer" if cold else "cds-resolve:missing",
+                                  f"{kind}: the reference serialize returned for {created[real]} (no purge since) does not resolve {where}: KeyError",
+                                  {"kind": "cds_seq", "backend": kind, "conf": conf, "ops": ops[:step + 1], "why": f"KeyError {where}",
+                                   "expected": created[real], "observed": "KeyError"})
                 continue
             addr = next((i for i, t in enumerate(tracked) if t is obj), None)
             alias = addr is not None
@@ -474,10 +566,21 @@ def run_cds_impl(ctx: Ctx, kind, scratch, conf, ops, prefix, report=True):
             if real in created and now != created[real] and report:
                 key = ("cds-alias:client-object" if origin[addr] == "client" else "cds-alias:resolved-object") if alias \
                     else "cds-resolve:wrong-content"
-                ctx.violation(key, f"{kind}: serialize returned {real[:40]!r} for the value {created[real]}, resolve now yields {now} "
+                ctx.violation(key, f"{kind}: serialize returned {real[:40]!r} for the value {created[real]}, resolve {where} now yields {now} "
                                    f"({'the cached live object, mutated in place since' if alias else 'a fresh object'})",
                               {"kind": "cds_seq", "backend": kind, "conf": conf, "ops": ops[:step + 1],
                                "expected": created[real], "observed": now})
+        elif op[0] == "purge":
+            cds.purge()
+            valid.clear()
+            mops.append("OPurge")
+            obs.append([3])
+        elif op[0] == "xpurge":
+            if shared:                      # a process-local backend cannot be purged by anybody else: the op is dropped
+                peer_store().purge()
+                valid.clear()
+                mops.append("OPurgeExt")
+                obs.append([3])
         else:
             a = op[1] % max(1, len(tracked))
             if tracked:
@@ -493,17 +596,27 @@ def run_cds_impl(ctx: Ctx, kind, scratch, conf, ops, prefix, report=True):
     return obs, mops, store, lru
 
 
+def _reser_after_purge(ops) -> bool:
+    seen, dropped = set(), set()
+    for o in ops:
+        if o[0] == "ser" and not o[2]:
+            if json.dumps(o[1]) in dropped:
+                return True
+            seen.add(json.dumps(o[1]))
+        elif o[0] in ("purge", "xpurge"):
+            dropped |= seen
+    return False
+
+
 def run_cds(ctx: Ctx, scratch: str):
     rng = ctx.rng
     prefix = from_codes(ev(ctx, ["ref_prefix gen_cds"])[0])
     confs = cds_configs(ctx)
     n_seq = 6 if ctx.thorough else 3
     runs = []
-    # the two witnesses of cds_lru_of_objects_refuted, first (model-guided candidates): the client mutates the
-    # object it serialized / a resolver mutates the object it was handed (LRU of one entry, evicted in between)
-    for kind in ("mem", "sqlite"):
-        runs.append((kind, (False, 0, 0, 4), [("ser", [1, 2, 3], False), ("mut", 0, [9]), ("res", 0)]))
-        runs.append((kind, (False, 0, 0, 1), [("ser", [1, 2, 3], False), ("ser", [4], False), ("res", 0), ("mut", 2, [9]), ("res", 0)]))
+    # the witnesses of the refutation theorems first (model-guided candidates): in-place mutation of a cached
+    # object, equal content serialized again after a purge by this / another instance, read back cold and warm
+    runs += cds_witness_runs(len(ser_list([1, 2, 3])))
     for conf in confs:
         for _ in range(n_seq):
             ops = gen_cds_seq(rng, rng.randint(6, 16))
@@ -549,6 +662,8 @@ def run_cds(ctx: Ctx, scratch: str):
     ctx.count(sum(len(r[2]) for r in runs), len({json.dumps([r[1], r[2]]) for r in runs}))
     ctx.notes["cds"] = {"configs": len(confs), "traces": len(runs), "ops": sum(len(r[2]) for r in runs),
                         "agreements": len(runs) - len(mism), "routing": routed,
+                        "op_kinds": {k: sum(1 for r in runs for o in r[2] if o[0] == k) for k in ("ser", "res", "cold", "mut", "purge", "xpurge")},
+                        "traces_with_reserialisation_after_purge": sum(1 for r in runs if _reser_after_purge(r[2])),
                         "thresholds": sorted({c[1] for c in confs}), "max_sizes": sorted({c[2] for c in confs}),
                         "lru_caps": sorted({c[3] for c in confs})}
     # reference-like strings: the guard of the theorem, re-checked on the real store
@@ -637,7 +752,8 @@ def run_e2e(ctx: Ctx, scratch: str):
         must = [(s, k, mn, (), False) for s in sers for k in ("mem", "sqlite") for mn in (0, 1024)]
         rest = [c for c in combos if c not in must]
         combos = must + rng.sample(rest, 8)
-    stats = {"arguments": 0, "results": 0, "exceptions": 0, "external_args": 0, "inline_args": 0}
+    stats = {"arguments": 0, "results": 0, "exceptions": 0, "external_args": 0, "inline_args": 0,
+             "arguments_after_purge": 0, "results_after_purge": 0}
     per_ser: dict = {}
     for ser, kind, mn, dca, dis in combos:
         app = world.make_app(kind, scratch, serializer_cls=ser, min_size_to_cache=mn, disable_client_data_store=dis)
@@ -650,11 +766,12 @@ def run_e2e(ctx: Ctx, scratch: str):
             vals = vals[:len(SCALARS) + 12] + exc_values() + extra_values()
         per_ser[ser] = per_ser.get(ser, 0) + len(vals)
 
-        def report(what, v, got, extra):
-            ctx.violation(f"roundtrip:{ser}:{what}:{canon(v)[0]}",
-                          f"{ser}/{kind} min_size={mn} disable_cache_args={dca} disabled={dis}: {what} {v!r} comes back as {got!r} {extra}",
+        def report(what, v, got, extra, after_purge=False):
+            ctx.violation(f"roundtrip:{ser}:{what}" + ("" if after_purge else f":{canon(v)[0]}"),
+                          f"{ser}/{kind} min_size={mn} disable_cache_args={dca} disabled={dis}: {what} {repr(v)[:200]} comes back as {repr(got)[:300]} {extra}",
                           {"kind": "roundtrip", "serializer": ser, "backend": kind, "min_size": mn, "disable_cache_args": list(dca),
-                           "disabled": dis, "what": what, "value_repr": repr(v), "value_pickle_b64": b64(v), "observed": repr(got)})
+                           "disabled": dis, "what": what, "value_repr": repr(v), "value_pickle_b64": b64(v), "observed": repr(got),
+                           "after_purge": after_purge})
         for idx, v in enumerate(vals):
             is_exc = isinstance(v, BaseException)
             y = vals[(idx * 7 + 3) % len(vals)]
@@ -713,7 +830,44 @@ def run_e2e(ctx: Ctx, scratch: str):
             except Exception as ex:  # noqa: BLE001
                 report("exception" if is_exc else "result", v, f"<{type(ex).__name__}: {ex}>", "(raised)")
         app.state_backend.wait_for_all_async_operations()
-    ctx.count(stats["arguments"] + stats["results"] + stats["exceptions"], sum(per_ser.values()))
+        # second round: the deployment is purged (between two batches), the SAME content is sent again and is picked
+        # up by another instance over the same backend (SQLite: a second app on the database; Mem: cold LRU)
+        app.purge()
+        again = [v for v in vals if not isinstance(v, BaseException)][:4] + ["x" * 1500, {"k": ["y" * 1200, 1.5, None, True]}]
+        if kind == "sqlite":
+            worker = world.make_app(kind, scratch, app_id=app.app_id, serializer_cls=ser, min_size_to_cache=mn, disable_client_data_store=dis)
+            worker.task(T.two, disable_cache_args=dca) if dca else worker.task(T.two)
+        else:
+            worker = app
+        for rnd in (0, 1):          # round 0 after the purge of already-sent content; round 1: plain repetition
+            for idx, v in enumerate(again):
+                y = again[(idx + 1) % len(again)]
+                try:
+                    call = Call(task, Arguments.from_call(T.two, v, y=y))
+                    inv = DistributedInvocation.from_parent(call, None)
+                    app.state_backend.upsert_invocations([inv])
+                    app.state_backend.wait_for_all_async_operations()
+                    if worker is app:
+                        cds._deserialized_cache.clear()
+                    got = worker.state_backend.get_invocation(inv.invocation_id).call.arguments.kwargs
+                    stats["arguments_after_purge"] += 1
+                    if canon(got) != canon({"x": v, "y": y}):
+                        bad = "x" if canon(got.get("x")) != canon(v) else "y"
+                        report("argument-after-purge", v if bad == "x" else y, got.get(bad), "(worker-side kwargs, second instance)", after_purge=True)
+                    worker.state_backend.set_result(inv.invocation_id, v)
+                    worker.state_backend.wait_for_all_async_operations()
+                    if worker is app:
+                        cds._deserialized_cache.clear()
+                    back = app.state_backend.get_result(inv.invocation_id)
+                    stats["results_after_purge"] += 1
+                    if canon(back) != canon(v):
+                        report("result-after-purge", v, back, "", after_purge=True)
+                except Exception as ex:  # noqa: BLE001 - content that made the trip before the purge must make it again
+                    report("argument-after-purge", v, f"<{type(ex).__name__}: {str(ex)[:120]}>",
+                           f"(raised on the second instance for two(x={v!r}, y={y!r}) sent again after app.purge())"[:300], after_purge=True)
+        worker.state_backend.wait_for_all_async_operations()
+    ctx.count(stats["arguments"] + stats["results"] + stats["exceptions"] + stats["arguments_after_purge"] + stats["results_after_purge"],
+              sum(per_ser.values()))
     ctx.notes["end_to_end"] = {"configurations": len(combos), "values_per_serializer": per_ser, **stats,
                                "serializers": sers, "stores": ["mem", "sqlite"]}
 
@@ -897,6 +1051,8 @@ def main(ctx: Ctx) -> int:
         f = info["facts"]
         ctx.notes["generated_facts"] = {"enc": f["enc"], "keys": f["keys"], "bind": f["bind"], "cds": f["cds"],
                                         "json_decoder_order": f["json"]["order"]}
+        ctx.notes["cds_store_write"] = ("skipped for keys remembered in a process-local set (refuted: cds_skip_known_refuted; the proof of "
+                                        "cds_store_write_unconditional breaks)" if f["cds"]["store_skip_known"] else "unconditional on every externalisation")
         ctx.notes["cds_lru_mode"] = ("live objects (full statement refuted by aliasing; cds_alias_current_tree proves the witness)"
                                      if f["cds"]["lru_holds_object"] else "serialized text (every trace quiet: the partial theorem is the full one)")
     ctx.assumptions += [
@@ -907,6 +1063,8 @@ def main(ctx: Ctx) -> int:
         "envelope classes are importable on the decoding side; exception args / enum values / to_json data are plain JSON trees",
         "local_cache_size >= 1 (with 0 the real _cache_deserialized raises KeyError on the empty OrderedDict; outside the quantifier of C15)",
         "in-place mutation is modelled for live objects held by the process-local LRU; values in the correspondence traces are int lists",
+        "a reference is required to resolve only while no purge() (by any instance) happened since serialize returned it; references created before a purge may raise KeyError (if they resolve, the content must still be the original)",
+        "store instances share the backend rows and nothing else (LRU and any remembered-key set are per instance); concurrent interleavings of two instances inside one serialize/resolve call are not explored",
     ]
     ctx.trusted += ["oracles as Section variables: H (SHA-256), ser/deser (serializer text layer), as_ref; see assumptions",
                     "hand-written models of inspect.Signature.bind/apply_defaults, collections.OrderedDict (LRU), str.rsplit/rpartition, json string escaping: tied by the differential correspondence (counts in coverage)"]
@@ -914,8 +1072,10 @@ def main(ctx: Ctx) -> int:
         rule="A: hand-written adversarial pairs + seeded random argument dicts over an alphabet with separators/quotes/backslash/controls/"
              "astral characters, pair classes equal/permuted/key/value/split/merge; B: every spelling (positional prefix x omitted defaults x "
              "keyword orders) of sampled full-argument tuples of six signatures + five error spellings each; C: module x function x args-id grid; "
-             "D: seeded traces of serialize/resolve/mutate over a grid of disable x min x max x LRU size on both stores; E: recursive values per "
-             "serializer x store x threshold x disable options through state backend and LazyCall; F: JSON-domain values vs preprocess/reconstruct. "
+             "D: witnesses of the Coq refutation theorems + seeded traces of serialize/resolve/resolve-on-another-instance/mutate/purge/"
+             "purge-by-another-instance (equal content repeated after purges) over a grid of disable x min x max x LRU size on both stores; "
+             "E: recursive values per serializer x store x threshold x disable options through state backend and LazyCall, then app.purge() and "
+             "the same content again read by a second app instance; F: JSON-domain values vs preprocess/reconstruct. "
              "distinct_nontrivial = distinct dicts + distinct calls/error spellings + key cases + distinct (config, trace) + values")
 
 
@@ -952,8 +1112,12 @@ def replay(ctx: Ctx, path: str) -> int:
             from pynenc.serializer.constants import ReservedKeys
             ops = [tuple(o) for o in rp["ops"]]
             obs, mops, store, lru = run_cds_impl(ctx, rp["backend"], scratch, tuple(rp["conf"]), ops, ReservedKeys.CLIENT_DATA.value, report=False)
+            done = {"mut": "mutated in place", "purge": "purged by this instance", "xpurge": "backend purged by another instance"}
+            if rp["backend"] != "sqlite":
+                ops = [o for o in ops if o[0] != "xpurge"]       # dropped on a process-local backend (see run_cds_impl)
             for o, ob in zip(ops, obs):
-                print(o, "->", (from_codes(ob[1:]) if ob[0] == 0 else ("object", ob[1], from_codes(ob[2:])) if ob[0] == 1 else {2: "KeyError", 3: "mutated"}[ob[0]]))
+                print(o, "->", (from_codes(ob[1:]) if ob[0] == 0 else ("object", ob[1], from_codes(ob[2:])) if ob[0] == 1
+                                else "KeyError" if ob[0] == 2 else done.get(o[0], "done")))
             print("expected", rp.get("expected"), "observed", rp.get("observed"), rp.get("why", ""))
         finally:
             world.rm_scratch(scratch)
@@ -967,9 +1131,17 @@ def replay(ctx: Ctx, path: str) -> int:
             import pickle
             v = pickle.loads(base64.b64decode(rp["value_pickle_b64"]))     # written by this check (our own test values)
             s = app.client_data_store.serialize(v)
+            reader = app.client_data_store
+            if rp.get("after_purge"):
+                app.purge()
+                s = app.client_data_store.serialize(v)
+                print("purged, serialized the same value again")
+                if rp.get("backend") == "sqlite":
+                    reader = world.make_app("sqlite", scratch, app_id=app.app_id, serializer_cls=ser, min_size_to_cache=rp.get("min_size", 1024),
+                                            disable_client_data_store=rp.get("disabled", False)).client_data_store
             app.client_data_store._deserialized_cache.clear()
             try:
-                back = repr(app.client_data_store.resolve(s))
+                back = repr(reader.resolve(s))
             except Exception as ex:  # noqa: BLE001
                 back = f"<{type(ex).__name__}: {ex}>"
             print("value", repr(v), "serialized", s[:120], "-> back", back, "| recorded:", rp["observed"])
